@@ -25,6 +25,7 @@ POOL = [
     "y ~ (0 + f|g)", "y ~ (scale(x)|g)", "y ~ x + (x|g:h)", "y ~ (1|C(k))", "y ~ (center(x) + f|g) + (1|h)", "o ~ x + f",
     "f ~ scale(x)", "o[a] ~ x", "binary(f, 'b') ~ x", "y ~ binary(f) + x", "y ~ f + g + f:g:x", "y ~ bs(x, df=5, intercept=True):g",
     "y ~ minmax(x) + (minmax(z)|g)", "y ~ scale(xb)", "y ~ center(xb) + (scale(xb)|g)", "y ~ I(np.log(x) * z)", "y ~ {center(x) + z}", "y ~ {x / np.sqrt(z)}", "y ~ scale(np.log(x) + z) + I(z - np.exp(x / 10))", "y ~ I(f)", "y ~ 0 + up(f):x", "y ~ x + (x|up(g))", "y ~ (0 + I(f)|g)",
+    "y ~ 0 + u", "y ~ x + (1|u)", "y ~ (0 + x|u) + f",  # an observation-level factor: as many levels as rows
 ]
 FIVE = [0, 1, 2, 3, 5]  # rows of c06.frame: all levels of f (b, c, a), both of g
 
@@ -165,6 +166,8 @@ def check_case(case, acc):
     fam = fam.replace("-nan", "")
     D = base(n, nan)
     probe = base(8).iloc[[6, 1, 4]].reset_index(drop=True) if f not in ENVONLY else base(8)  # caller arrays have 8 entries
+    if "u" in f.replace("up(", ""):  # the observation-level factor: the probe can only hold rows the design has seen
+        probe = base(n).iloc[[n - 1, 1, 3]].reset_index(drop=True)
     acc.calls += 1
     try:
         dm0 = build(f, D)
@@ -176,8 +179,14 @@ def check_case(case, acc):
                     continue
                 for p in itertools.permutations(range(len(probe))):
                     acc.calls += 1
-                    got = np.asarray(M.evaluate_new_data(probe.iloc[list(p)].reset_index(drop=True)).design_matrix, dtype=float)
+                    res = M.evaluate_new_data(probe.iloc[list(p)].reset_index(drop=True))
+                    got = np.asarray(res.design_matrix, dtype=float)
                     want = ref[nm]["probe"][list(p)]
+                    if nm == "common":  # the data-frame view of that result shows the same rows under the same labels
+                        view = res.as_dataframe()
+                        if list(view.columns) != [l for t in M.terms.values() for l in t.labels] or not np.array_equal(view.to_numpy(dtype=float), got, equal_nan=True):
+                            problems.append(("rows-permuted", f"common.evaluate_new_data(probe rows {list(p)}).as_dataframe() does not show the rows of that result"))
+                            break
                     if got.shape != want.shape or not np.allclose(got, want, rtol=1e-9, atol=1e-12, equal_nan=True):
                         problems.append(("rows-permuted", f"{nm}.evaluate_new_data on the probe rows in order {list(p)} is not the row-permuted result of the probe"))
                         break
